@@ -40,15 +40,22 @@ std::string genGo(Rng& r, const pg::GenPos& gp, long long costNs, const GoOpts& 
     } else if (kind < 60) {
         go += " movetime " + std::to_string(ms);
     } else if (kind < 80) {
-        long long base = std::max(1LL, std::min(10000000LL, ms * r.range(5, 60)));
+        // the mover's thinking time must stay within a few multiples of ms (= T nodes): with few moves to go, or a large
+        // increment, the engine spends nearly the whole clock / increment on this move
+        long long mtg = -1;
+        if (r.chance(0.5)) mtg = r.chance(0.2) ? r.range(0, 1) : r.range(2, 100);
+        long long mult = (mtg >= 0 && mtg <= 1) ? r.range(1, 3) : (mtg >= 2 && mtg < 20) ? r.range(2, 3 * mtg) : r.range(5, 60);
+        long long base = std::max(1LL, std::min(10000000LL, ms * mult));
         long long other = std::max(1LL, std::min(10000000LL, ms * r.range(1, 80)));
         bool w = gp.pos.isWhiteMove();
         go += " wtime " + std::to_string(w ? base : other) + " btime " + std::to_string(w ? other : base);
         if (r.chance(0.5)) {
-            go += " winc " + std::to_string(r.chance(0.2) ? std::min(100000LL, base * 2) : r.range(0, std::max(1LL, std::min(100000LL, base / 10))));
-            go += " binc " + std::to_string(r.range(0, std::max(1LL, std::min(100000LL, other / 10))));
+            long long myInc = r.chance(0.2) ? std::min(100000LL, std::min(base * 2, ms * 3)) : r.range(0, std::max(1LL, std::min(100000LL, std::min(base / 10, ms * 3))));
+            long long otherInc = r.range(0, std::max(1LL, std::min(100000LL, other / 10)));
+            go += " winc " + std::to_string(w ? myInc : otherInc);
+            go += " binc " + std::to_string(w ? otherInc : myInc);
         }
-        if (r.chance(0.5)) go += " movestogo " + std::to_string(r.chance(0.2) ? r.range(0, 1) : r.range(2, 100));
+        if (mtg >= 0) go += " movestogo " + std::to_string(mtg);
     } else if (kind < 87) {
         go += " mate " + std::to_string(r.range(1, 4));
         if (gp.men > 8) go += " nodes " + std::to_string(T);
